@@ -49,6 +49,50 @@ Probe(g, n, hasIter, it) ==
                   /\ { it[i] : i \in 1..Len(it) } = { <<k, m[k]>> : k \in DOMAIN m }
     /\ UNCHANGED m
 
+(* ------------------------------------------------------------------------------------ *)
+(* Operations outside the property's list.  They are defined from the same abstract map *)
+(* because they share the storage the listed operations rely on afterwards.             *)
+Pairs == { <<k, m[k]>> : k \in DOMAIN m }
+RangeOf(s) == { s[i] : i \in 1..Len(s) }
+IsEnumeration(r) == Len(r) = Cardinality(DOMAIN m) /\ RangeOf(r) = Pairs
+IsEmpty(r) == r = (DOMAIN m = {}) /\ UNCHANGED m
+(* a batch of <<key, value>> pairs applied in order (extend, insert_batch, from_iter) *)
+BatchKeys(kv) == { kv[i][1] : i \in 1..Len(kv) }
+LastIdx(kv, x) == CHOOSE i \in 1..Len(kv) : kv[i][1] = x /\ \A j \in (i+1)..Len(kv) : kv[j][1] /= x
+UpdAll(kv) == [x \in DOMAIN m \cup BatchKeys(kv) |-> IF x \in BatchKeys(kv) THEN kv[LastIdx(kv, x)][2] ELSE m[x]]
+Extend(kv) == m' = UpdAll(kv)
+InsertBatch(kv) == m' = UpdAll(kv)
+InsertBatchRefused(kv) == UNCHANGED m
+GetBatch(ks, rs) == /\ Len(rs) = Len(ks)
+                    /\ \A i \in 1..Len(ks) : rs[i] = Lookup(ks[i])
+                    /\ UNCHANGED m
+(* get_or_default(k) with default d: a plain value *)
+GetOrDefault(k, d, r) == r = (IF k \in DOMAIN m THEN m[k] ELSE d) /\ UNCHANGED m
+(* get_or_insert(k, v) -> &mut V: r is the value seen through the reference, w the value the *)
+(* caller left there.  The closure twin (get_or_insert_with) also logs whether it was called. *)
+GetOrInsert(k, v, w, r) == /\ r = (IF k \in DOMAIN m THEN m[k] ELSE v)
+                           /\ m' = Upd(k, w)
+GetOrInsertWith(k, v, w, r, called) == GetOrInsert(k, v, w, r) /\ called = (k \notin DOMAIN m)
+GetOrInsertRefused == UNCHANGED m
+(* retain(p): restriction to the entries satisfying P; F is what the predicate wrote through  *)
+(* its &mut V for the entries it kept.  seen = the entries the predicate was shown.           *)
+RetainCore(P(_, _), F(_)) == m' = [k \in { x \in DOMAIN m : P(x, m[x]) } |-> F(m[k])]
+Retain(P(_, _), F(_), seen) == IsEnumeration(seen) /\ RetainCore(P, F)
+KeysOf(r) == Len(r) = Cardinality(DOMAIN m) /\ RangeOf(r) = DOMAIN m /\ UNCHANGED m
+CountIn(s, x) == Cardinality({ i \in 1..Len(s) : s[i] = x })
+ValuesOf(r) == /\ Len(r) = Cardinality(DOMAIN m)
+               /\ \A x \in RangeOf(r) : CountIn(r, x) = Cardinality({ k \in DOMAIN m : m[k] = x })
+               /\ UNCHANGED m
+(* GoldHashMap fast iteration: documented to be exact only when no entry was deleted; d is an *)
+(* upper bound of the deleted slots still in the entry array (ghost, kept by the trace spec). *)
+IterFast(r, d) == /\ Pairs \subseteq RangeOf(r)
+                  /\ Len(r) >= Cardinality(DOMAIN m)
+                  /\ Len(r) <= Cardinality(DOMAIN m) + d
+                  /\ (d = 0 => IsEnumeration(r))
+                  /\ UNCHANGED m
+(* clone(): the caller continues with the clone; eq = result of `original == clone` if offered *)
+CloneSwap(eq) == eq \in {None, Some(TRUE)} /\ UNCHANGED m
+
 (* ---- properties (of the contract itself; checked by MC_Map) ---- *)
 TypeOK(K, V) == DOMAIN m \subseteq K /\ \A k \in DOMAIN m : m[k] \in V
 =============================================================================
